@@ -950,6 +950,14 @@ func aliasTarget(addr ssa.Value) ssa.Value {
 // that are never written after construction anywhere in the module (immutableFields), so the load
 // yields the constructor's value on every path.
 func localStructField(fa *ssa.FieldAddr) ssa.Value {
+	if st := localStructFieldStore(fa); st != nil {
+		return st.Val
+	}
+	return nil
+}
+
+// localStructFieldStore: the one store that gives the field its value (see localStructField).
+func localStructFieldStore(fa *ssa.FieldAddr) *ssa.Store {
 	if theWorld == nil {
 		return nil
 	}
@@ -963,7 +971,7 @@ func localStructField(fa *ssa.FieldAddr) ssa.Value {
 	if !immutableFields(theWorld)[structName(fa.X.Type())+"."+fieldName(fa.X.Type(), fa.Field)] && !localStructPrivate(base, fa.Field) {
 		return nil
 	}
-	var val ssa.Value
+	var val *ssa.Store
 	n := 0
 	aliases := structAliases(base)
 	if tmp := wholeInit(base); tmp != nil {
@@ -982,7 +990,7 @@ func localStructField(fa *ssa.FieldAddr) ssa.Value {
 			for _, r2 := range referrers(f2) {
 				if st, ok := r2.(*ssa.Store); ok && st.Addr == ssa.Value(f2) {
 					n++
-					val = st.Val
+					val = st
 				}
 			}
 		}
